@@ -47,7 +47,7 @@ def run(ck):
     else:
         # deadlines are sized for a heavily loaded machine (sum ~40 min); ~12 min on an idle 16-core machine
         ck.explore(P, ["--depth=5", "--cfg=0", "--kinds=2"], "d5-by-directory-own", budget=0, deadline_s=650, jobs=JOBS)
-        ck.explore(P, ["--depth=4", "--cfgs=0,1,2,3,4,5,12,13,14", "--kinds=2"], "d4-9-policies", budget=0, deadline_s=1000, jobs=JOBS)
+        ck.explore(P, ["--depth=4", "--cfgs=0,1,2,3,5,12,13,14", "--kinds=2"], "d4-8-policies", budget=0, deadline_s=1000, jobs=JOBS)
         ck.explore(P, ["--depth=3", "--ncfg=15", "--kinds=3"], "d3-all-policies", budget=0, deadline_s=250, jobs=JOBS)
         ck.explore(P, ["--depth=4", "--cfg=0", "--master-nv=1", "--kinds=3"], "d4-master-without-valid_seteuid", budget=0, deadline_s=100, jobs=JOBS)
         for k, what in ((2, "get_bb_uid"), (3, "creator_file"), (4, "get_root_uid")):
